@@ -251,4 +251,37 @@ def eventPasses (c : Cfg) (resolved : Path) (name : Path) : Bool :=
     | 5 => name == joinPath (dirOf c.cleaned) Facts.legacyIntermediateSymlinkDirChars
     | _ => false
 
+/-- What can wake the loop's `select` (F15s). -/
+inductive Wakeup where
+  | tick                       -- the poll ticker
+  | reload                     -- the Reload channel
+  | event (name : Path)        -- an fsnotify event
+  | error                      -- an fsnotify error (documented: the kernel's event queue overflowed, events were lost)
+  | eventsClosed | errorsClosed  -- the watcher was closed under the loop
+  | ctxDone
+deriving Repr, DecidableEq
+
+inductive SelectArm where
+  | pass   -- falls through to `REREAD: ws.Value(...)`
+  | skip   -- `continue MAINLOOP`: back to the select without reading
+  | exit   -- `return` (the deferred Close / WG.Done run)
+deriving Repr, DecidableEq
+
+/-- The arm of the select taken for a wake-up (F15g filter, F15e2/F15e3 fall-through arms, F15i). -/
+def selectArm (c : Cfg) (resolved : Path) : Wakeup → SelectArm
+  | .tick | .reload => if Facts.watchTickReloadFallThrough then .pass else .skip
+  | .event n => if eventPasses c resolved n then .pass else .skip
+  | .error => if Facts.watchErrorsFallThrough then .pass else .skip
+  | .eventsClosed | .errorsClosed => .exit
+  | .ctxDone => if Facts.watchLoopReturnsOnCtxDone then .exit else .skip
+
+/-- One turn of `MAINLOOP`: the select, then — if the arm falls through — a wake-up's passes over the supplied reads.
+Returns the state, the actions, the reads not consumed and whether the loop goes on. -/
+def loopTurn {V} (dec : Bytes → Option V) (c : Cfg) (s : WState) (w : Wakeup) (rs : List IterRead) :
+    WState × List (Action V) × List IterRead × Bool :=
+  match selectArm c s.resolved w with
+  | .pass => let k := wake dec c s rs; (k.1, k.2.1, k.2.2, true)
+  | .skip => (s, [], rs, true)
+  | .exit => (s, [], rs, false)
+
 end Dials.Watch
